@@ -92,6 +92,29 @@ def budget():
     except BareScriptRuntimeError:
         pass
 attempt('statement budget across an include (C09)', budget)
+
+def budget_exact():
+    # two adjacent include lines (one include statement with two includes), one of them nested: every started statement
+    # of every included script is charged exactly once, under every limit
+    srcs = {'a.bare': "include 'c.bare'\\na = 1\\na2 = 2\\n", 'b.bare': "b = 1\\n", 'c.bare': "c = 1\\nc2 = 2\\n"}
+    main = "include 'a.bare'\\ninclude 'b.bare'\\nd = 4\\n"
+    total = 1 + (1 + 2 + 2) + 1 + 1      # include statement, a.bare (its include statement, c.bare, two assignments), b.bare, d
+    def run(limit):
+        o3 = {'fetchFn': lambda req: srcs.get(req['url'].split('/')[-1]), 'globals': {}, 'maxStatements': limit}
+        try:
+            execute_script(parse_script(main), o3)
+            return 'completed', o3.get('statementCount')
+        except BareScriptRuntimeError as exc:
+            return 'aborted', str(exc)
+    for limit in (0, total, total + 1):
+        got = run(limit)
+        if got != ('completed', total):
+            bad.append({'what': 'statements of adjacent includes are each counted once', 'limit': limit, 'expected': ['completed', total], 'observed': list(got)})
+    for limit in range(1, total):
+        got = run(limit)
+        if got[0] != 'aborted' or 'Exceeded maximum script statements' not in got[1]:
+            bad.append({'what': 'a run of %d statements must be aborted under a smaller limit' % total, 'limit': limit, 'observed': list(got)})
+attempt('exact statement count across adjacent and nested includes (C09)', budget_exact)
 result = {'violates': bool(bad), 'counterexamples': bad[:3]}
 """
 
@@ -99,7 +122,7 @@ result = {'violates': bool(bad), 'counterexamples': bad[:3]}
 def include_bounded(pr, prop):
     res = run_witness(INCLUDE_WITNESS)
     pr.bounded.append('include arm in the quick tier: bounded native stand-in (a fixed include tree: nested relative includes, '
-                      'system include, include inside a function, missing and broken files, budget across an include); the symbolic run of the arm '
+                      'system include, include inside a function, missing and broken files, budget across an include, exact count across adjacent and nested includes under every limit); the symbolic run of the arm '
                       'leaves 488 of 1693 obligations undecided and is therefore outside both tiers (not proved)')
     if res.get('violates'):
         pr.failures.append({'obligation': f'{prop}.bounded.include-semantics', 'function': 'runtime._execute_script_helper#stmt-include',
